@@ -167,7 +167,7 @@ func (w *world) slotDelivery(s *Node) {
 		}
 		// exactly what it takes to overtake the receiver: the side chain is longer only thanks to what one pillar puts
 		// into one slot
-		if need := int(lf) - int(h0) + 1; need >= 1 && need <= 8 && rng.Intn(2) == 0 {
+		if need := int(lf) - int(h0) + 1; need >= 1 && need <= 8 && (rng.Intn(2) == 0 || (forkPoint(l.Ch, s.Ch) < lf && rng.Intn(3) != 0)) {
 			k = need + rng.Intn(2)
 			out.Count("sync:slot-fault:longer-only-thanks-to-in-slot-momentums")
 		}
